@@ -74,7 +74,7 @@ func mergeTable() []mDef {
 			{Name: "price", Type: "Float"}, {Name: "tags", Type: "[String!]"}, {Name: "matrix", Type: "[[Int]]"}, {Name: "state", Type: "State!"},
 			{Name: "pick", Type: "[Item]", Args: "(ids: [Int] = [1, 2], opt: Opt = {deep: {n: 1}, flag: true})"}, {Name: "owner", Type: "Owner"}, {Name: "old", Type: "String", Dirs: "@deprecated(reason: \"gone\")"},
 			{Name: "any", Type: "Thing"}, {Name: "when", Type: "Stamp"}}},
-		{Kind: "type", Name: "Owner", Ifaces: []string{"Node"}, Fields: []mField{{Name: "id", Type: "ID!"}, {Name: "name", Type: "String!"}, {Name: "items", Type: "[Item!]!", Args: "(first: Int = 10, after: String)"}, {Name: "tagged", Type: "String", Dirs: "@tag(name: \"a\") @tag(name: \"b\")"}}},
+		{Kind: "type", Name: "Owner", Ifaces: []string{"Node"}, Fields: []mField{{Name: "id", Type: "ID!"}, {Name: "name", Type: "String!"}, {Name: "items", Type: "[Item!]!", Args: "(first: Int = 10, after: String)"}, {Name: "since", Type: "Int", Args: "(cursor: String = \"null\", at: Stamp = 1, mode: State = NEW, tagsIn: [String] = [])"}, {Name: "tagged", Type: "String", Dirs: "@tag(name: \"a\") @tag(name: \"b\")"}}},
 		{Kind: "union", Name: "Thing", Fields: []mField{{Name: "Item"}, {Name: "Owner"}}},
 		{Kind: "enum", Name: "State", Fields: []mField{{Name: "NEW"}, {Name: "USED", Dirs: "@deprecated(reason: \"x\")"}, {Name: "BROKEN"}}},
 		{Kind: "input", Name: "Opt", Fields: []mField{{Name: "deep", Type: "Deep"}, {Name: "flag", Type: "Boolean", Args: ""}, {Name: "n", Type: "Int = 3"}}},
@@ -231,6 +231,10 @@ var mergeMutations = []struct {
 	{"arg-default-list", func(ds []mDef) bool { return setField(ds, "Item", "pick", func(f *mField) { f.Args = "(ids: [Int] = [3], opt: Opt = {deep: {n: 1}, flag: true})" }) }},
 	{"arg-default-list-same-length", func(ds []mDef) bool { return setField(ds, "Item", "pick", func(f *mField) { f.Args = "(ids: [Int] = [1, 3], opt: Opt = {deep: {n: 1}, flag: true})" }) }},
 	{"arg-default-object", func(ds []mDef) bool { return setField(ds, "Item", "pick", func(f *mField) { f.Args = "(ids: [Int] = [1, 2], opt: Opt = {deep: {n: 2}, flag: true})" }) }},
+	{"arg-default-null-vs-string", func(ds []mDef) bool { return setField(ds, "Owner", "since", func(f *mField) { f.Args = strings.Replace(f.Args, "cursor: String = \"null\"", "cursor: String = null", 1) }) }},
+	{"arg-default-int-vs-string", func(ds []mDef) bool { return setField(ds, "Owner", "since", func(f *mField) { f.Args = strings.Replace(f.Args, "at: Stamp = 1", "at: Stamp = \"1\"", 1) }) }},
+	{"arg-default-enum-vs-string", func(ds []mDef) bool { return setField(ds, "Owner", "since", func(f *mField) { f.Args = strings.Replace(f.Args, "mode: State = NEW", "mode: State = \"NEW\"", 1) }) }},
+	{"arg-default-empty-list-vs-object", func(ds []mDef) bool { return setField(ds, "Owner", "since", func(f *mField) { f.Args = strings.Replace(f.Args, "tagsIn: [String] = []", "tagsIn: [String] = {}", 1) }) }},
 	{"input-field-default", func(ds []mDef) bool { return setField(ds, "Opt", "n", func(f *mField) { f.Type = "Int = 4" }) }},
 	{"enum-value-renamed", func(ds []mDef) bool { return setField(ds, "State", "BROKEN", func(f *mField) { f.Name = "LOST" }) }},
 	{"enum-value-added", func(ds []mDef) bool { return addField(ds, "State", mField{Name: "EXTRA"}) }},
